@@ -163,6 +163,7 @@ func hash64(parts ...string) uint64 {
 type FCfg struct {
 	MaxLen   int  // maximal generated collection size
 	AllowNil bool // outputs may be null
+	PathStrings bool // string and untyped-map outputs may hold the path of a file the stage wrote
 	Salt     string
 	// MaxChunks bounds the number of chunks a split returns.
 	MaxChunks int
@@ -236,10 +237,18 @@ func (g *genCtx) value(t Ty, path string) interface{} {
 	case "float":
 		return float64(h%1000) + 0.5
 	case "string":
+		if g.cfg.PathStrings && g.files != nil && h%3 == 1 {
+			// a string which is the path of a file the stage wrote (strings and
+			// untyped maps "may contain paths": VDR has to honour them too)
+			return g.files(path+"_viastring", fmt.Sprintf("%s|%s|%x|str", g.seed, path, h))
+		}
 		return fmt.Sprintf("s%x", h%0xffffff)
 	case "bool":
 		return h%3 == 0
 	case "map":
+		if g.cfg.PathStrings && g.files != nil && h%3 == 2 {
+			return map[string]interface{}{"u": int64(h % 100), "p": g.files(path+"_viamap", fmt.Sprintf("%s|%s|%x|map", g.seed, path, h))}
+		}
 		return map[string]interface{}{"u": int64(h % 100)}
 	}
 	if g.p.IsFileType(t.Base) {
